@@ -594,8 +594,11 @@ def check(pid, tier="quick", seed=None, replay=None):
             cov["coqchk_tail"] = coqchk_out
         ev = {"property_id": pid, "tier": tier, "seed": seed, "level": cfg.get("level", "proof"), "coverage": cov,
               "assumptions": cfg.get("assumptions", []), "wall_s": round(wall, 2), "violations": len(violations)}
-        os.makedirs(os.path.join(ROOT, "evidence"), exist_ok=True)
-        with open(os.path.join(ROOT, "evidence", pid + ".json"), "w") as f:
+        # evidence of a run against a scratch repository (VERIF_REPO, mutation experiments) is kept apart:
+        # evidence/ only ever describes runs against /repo itself
+        evdir = os.path.join(ROOT, "evidence") if REPO == "/repo" else os.path.join(ROOT, ".work", "evidence_scratch")
+        os.makedirs(evdir, exist_ok=True)
+        with open(os.path.join(evdir, pid + ".json"), "w") as f:
             json.dump(ev, f, indent=1)
     finally:
         if not os.environ.get("VERIF_KEEP"):
